@@ -194,6 +194,12 @@ def attr(o, name):
     return getattr(o, name)
 
 
+def mkdir(path):
+    import os
+    os.mkdir(path)
+    return path
+
+
 def many(fn, n=3000):
     """A long session: fn(0) .. fn(n-1) (distinct arguments each), [n, last result]."""
     res = None
@@ -505,6 +511,9 @@ SCEN["flow"] = {
                       "X(d + '/c.pkl', recompute=True).cache_exists()])", None),
         ("repr", "L.with_tmp(lambda d: L.strip_dir(X(d + '/c.pkl'), d))", None),
         ("drop-missing", "L.with_tmp(lambda d: X(d + '/c.pkl').drop_cache())", None),
+        # something that exists where the cache should be and cannot be removed as a file
+        ("drop-unremovable", "L.with_tmp(lambda d: X(L.mkdir(d + '/c.pkl')).drop_cache())",
+         "LenaEnvironmentError"),
         ("set-context", "L.with_tmp(lambda d: (lambda c: (c._set_context({'a': 1}), "
                         "L.strip_dir(c._filename, d))[1])(X(d + '/{{a}}.pkl')))", None),
         ("set-context-key-missing", "L.with_tmp(lambda d: (lambda c: (c._set_context({'b': 1}), "
